@@ -337,9 +337,9 @@ class OscArgsMatcher(AbstractMessageMatcher):
         args = msg[1:]
         for i, item in enumerate(self.arg_template):
             if callable(item):
-                if not item(args[i]):
+                if i >= len(args) or not item(args[i]):
                     return
-            elif item is not None and item != args[i]:
+            elif item is not None and (i >= len(args) or item != args[i]):
                 return
         fn.value(self.func, msg, time, addr, recv_port)
 
